@@ -83,6 +83,8 @@ def action_space(sid):
         return spaces.Box(np.array([-2.0, -1.0], np.float32), np.array([2.0, 1.0], np.float32), dtype=np.float32)
     if sid == "Bper2":  # per-dimension, dim>0 wider and asymmetric
         return spaces.Box(np.array([-1.0, -0.5], np.float32), np.array([1.0, 4.0], np.float32), dtype=np.float32)
+    if sid == "Bnd":    # asymmetric bounds that are not exactly representable: rescaling a saturated output must not overshoot them
+        return spaces.Box(np.array([-2.3, -1.4], np.float32), np.array([0.6, 0.8], np.float32), dtype=np.float32)
     if sid == "B1":
         return spaces.Box(-1.0, 1.0, (1,), np.float32)
     if sid == "B1asym":
@@ -90,7 +92,7 @@ def action_space(sid):
     raise HarnessError(f"unknown action space id {sid}")
 
 
-BOX_IDS = ["Bsym", "Basym", "Bper", "Bper2", "B1", "B1asym"]
+BOX_IDS = ["Bsym", "Basym", "Bper", "Bper2", "Bnd", "B1", "B1asym"]
 OBS_KINDS = ["vec", "disc", "img"]
 BATCHES = ["u", 1, 3]
 
